@@ -503,7 +503,7 @@ def _unsnapshotted(ctx, master):
     index = ctx.index
     mods = [index.module(K.SCHED), index.module(K.LOADER),
             index.module(K.MASTER)]
-    if ctx.tier == 'thorough':
+    if ctx.tier in ('quick', 'thorough'):   # whole-package clause, cheap enough for every run
         mods = [m for m in index.modules.values()
                 if 'treadmill.scheduler' in m.imports.values() or
                 m.name.startswith('treadmill.scheduler')]
@@ -690,12 +690,13 @@ def _removal(ctx, master):
         'super' in N.txt(c.func))]
     ctx.require(sups, 'super().remove_app in Master.remove_app', rule='C09.5')
     # the model's instance, whatever the local is called
-    model = 'self.cell.apps[%s]' % func.params()[1]
+    models = ('self.cell.apps[%s]' % func.params()[1],
+              'self.cell.apps.get(%s)' % func.params()[1])
     enz = N.Normaliser(env=K.func_env(func))
 
     def unplaced(edge):
         return any(a.key[0] == 'truth' and not a.key[2] and
-                   a.key[1] == '%s.server' % model
+                   a.key[1] in ['%s.server' % m for m in models]
                    for a in enz.facts_of_edge(edge))
     for node in sups:
         ok = bool(dels) and K.guarded_by(
@@ -708,7 +709,7 @@ def _removal(ctx, master):
             ctx.ob('C09.5', func, node, rec[0] == 'app.server' or
                    K.rtxt(func, _c.args[0].args[0] if isinstance(
                        _c.args[0], ast.Call) and _c.args[0].args
-                       else _c.args[0]) == '%s.server' % model,
+                       else _c.args[0]) in ['%s.server' % m for m in models],
                    'the record deleted is the one under the current server',
                    construct='delete path server = app.server')
     # single funnel
@@ -829,6 +830,14 @@ def check(ctx):
     from . import c01
     with ctx.shared({'C01': 'C09.4'}):
         c01._model_exit(ctx)
+    # shared with C10.3: an instance recorded under several servers at a
+    # restart loses every copy, in the model and in the store (a copy kept
+    # in the store only is a record without a placement), and deleting a
+    # server through the API removes its records before the master hears
+    # of it
+    from . import c10
+    c10.restart_repair(ctx, 'C09.4')
+    c10._server_deletion(ctx, 'C09.4')
 
 
 _M = 'lib/python/treadmill/scheduler/master.py'
